@@ -293,8 +293,8 @@ func ruleArith(c *Ctx, prefix string) {
 		ex.Run()
 		// math/bits carries
 		nb := 0
-		for _, b := range fn.Blocks {
-			for _, in := range b.Instrs {
+		{
+			for _, in := range viewInstrs(fn) { // the function and the helpers its body was split into
 				call, ok := in.(*ssa.Call)
 				if !ok {
 					continue
@@ -310,6 +310,26 @@ func ruleArith(c *Ctx, prefix string) {
 					idx = 0 // hi
 				}
 				consumed, how := carryConsumed(call, idx)
+				if !consumed {
+					// through a local, a struct field or a helper's result
+					for _, r := range *call.Referrers() {
+						if e, ok := r.(*ssa.Extract); ok && e.Index == idx {
+							consumed, how = flowsTo(c, fn, e, func(u ssa.Instruction, v ssa.Value) (bool, string) {
+								switch x := u.(type) {
+								case *ssa.Call:
+									if f := x.Call.StaticCallee(); f != nil && fnPkgPath(f) == "math/bits" {
+										return true, "fed (through locals / a helper's result) to the next limb operation " + f.Name()
+									}
+								case *ssa.BinOp:
+									if x.Op == token.NEQ || x.Op == token.EQL {
+										return true, "compared with zero (overflow test)"
+									}
+								}
+								return false, ""
+							})
+						}
+					}
+				}
 				ek := fmt.Sprintf("%s borrow#%d", fn.String(), nb)
 				if consumed {
 					c.R.ok(prefix+"ARITH.GUARDED", key, c.P.InstrPos(in), shortFn(fn), how)
